@@ -319,6 +319,19 @@ theorem dispatchK_other_by_keyword {κ : Type} (T : Tables) (c f m d : String) (
   exact torchFunction_first T c f m d _ [] kw (.op c)
     (by simpa [isInstance] using isSubclass_self_of_resolve T.classes c m d hr) (typesOK_single c) hf hr
 
+theorem dispatchKN_false {κ : Type} (T : Tables) (f : String) (args kwops : List Arg) (kw : κ) :
+    dispatchKN false T f args kwops kw = dispatchK T f args kwops kw := by
+  simp [dispatchKN, dispatchK]
+
+/-- With keyword operands normalised, `torch.f(x, other=op)` is the second-argument call `m(op, x)`. -/
+theorem dispatchKN_operator_by_keyword {κ : Type} (T : Tables) (c f m d : String) (a0 : Arg) (kw : κ)
+    (h0 : a0.plain = true) (hf : T.second.lookup f = some m) (hr : resolve T.classes c m = some d) :
+    dispatchKN true T f [a0] [.op c] kw = .call d m [.op c, a0] true kw := by
+  have hov : overloaded T.classes ([a0] ++ [.op c]) = [.opc c] :=
+    overloaded_plain_op_plain T.classes a0 c [] h0 (by simp)
+  simp only [dispatchKN, hov, hasOp, if_true, handlers]
+  exact torchFunction_second T c f m d _ [] kw a0 (.op c) (isInstance_plain T.classes a0 c h0) (typesOK_single c) hf hr
+
 /-- kwargs reach the handler unchanged, on either path. -/
 theorem torchFunction_kw {κ : Type} (T : Tables) (c f : String) (types : List OType) (args : List Arg) (kw : κ)
     (d m : String) (args' : List Arg) (sw : Bool) (kw' : κ)
